@@ -107,7 +107,7 @@ def _nm_one(get, di, sec, names, hdrs, tag, bad, with_dies):
     # order 1: iteration first
     lut = get()
     keys = [k.encode('utf-8') for k in lut]
-    if tag == 'dup':
+    if tag.startswith('dup'):
         # duplicate names: a mapping cannot hold them all; only the key set and the candidates are asserted
         if set(keys) != set(want_keys) or len(keys) != len(set(keys)):
             bad('keys', sorted(set(want_keys)), keys)
@@ -216,7 +216,9 @@ def check(run):
                         'ARanges.entries compared as a bag (the property does not fix its order)',
                         'tables with duplicate names (tag dup): only key set and membership of the value in the encoded candidates',
                         'lookups outside .debug_info: any exception or None is accepted as "no unit"',
-                        'names are UTF-8 (observed str keys are compared after .encode("utf-8") with the encoded bytes)']
+                        'names are UTF-8 (observed str keys are compared after .encode("utf-8") with the encoded bytes)',
+                        'name sets may carry padding between their terminator and the end of unit_length (tag +pad): the next set '
+                        'starts where unit_length says (DWARF5 7.2.2/7.19)']
     runs = [('Lookup_quick' if run.tier == 'quick' else 'Lookup_thorough', None, None)]
     if run.tier != 'quick':
         runs.append(('Lookup_sim', 3000, 12))
